@@ -1208,6 +1208,32 @@ func populate(x *hx.Exec, n int, expired func(i int) bool) (live, dead int) {
 	return
 }
 
+// logRecorder is a slog handler that keeps the records logged after closedAt.
+type logRecorder struct {
+	mu       sync.Mutex
+	closedAt atomic.Int64
+	late     []string
+}
+
+func (l *logRecorder) Enabled(context.Context, slog.Level) bool { return true }
+func (l *logRecorder) Handle(_ context.Context, r slog.Record) error {
+	if c := l.closedAt.Load(); c != 0 && time.Now().UnixNano() > c {
+		l.mu.Lock()
+		var attrs []string
+		r.Attrs(func(a slog.Attr) bool { attrs = append(attrs, a.String()); return true })
+		l.late = append(l.late, r.Level.String()+" "+r.Message+" "+strings.Join(attrs, " "))
+		l.mu.Unlock()
+	}
+	return nil
+}
+func (l *logRecorder) WithAttrs([]slog.Attr) slog.Handler { return l }
+func (l *logRecorder) WithGroup(string) slog.Handler      { return l }
+func (l *logRecorder) after() []string {
+	l.mu.Lock()
+	defer l.mu.Unlock()
+	return append([]string(nil), l.late...)
+}
+
 // bgRun is one observation of the real background goroutine: a file database populated with
 // expired and live keys, client load running, polled until the expired keys are gone.
 type bgRun struct {
@@ -1356,6 +1382,23 @@ func runC20(seed int64, n int, long bool) {
 		nBig = 10000
 	}
 	quiet := slog.New(slog.NewTextHandler(io.Discard, nil))
+	// closing stops the reclamation: a handle with a recording logger is opened and closed at once;
+	// whatever it logs afterwards (its tick would come 60 s after Open) shows the goroutine still runs
+	rec := &logRecorder{}
+	if hc, err := redka.Open(filepath.Join(dir, "closed-at-once.db"), &redka.Options{Logger: slog.New(rec)}); err == nil {
+		_ = hc.Str().Set("k", "v")
+		if err := hc.Close(); err != nil {
+			fail("c20-close", "Close: "+err.Error(), nil)
+		}
+		rec.closedAt.Store(time.Now().UnixNano())
+	}
+	defer func() {
+		// by now the other handles' ticks (60 s after their Open, which came later) have been observed
+		if msgs := rec.after(); len(msgs) > 0 && len(sum.Failures) == 0 {
+			fail("c20-close", fmt.Sprintf("a handle that had been closed kept running its reclamation: %d log records after Close, e.g. %s", len(msgs), msgs[0]), nil)
+		}
+		count("closed_handle_observed")
+	}()
 	bgA, err := startBg(dir, "default-options", nil, nBig, func(i int) bool { return i%6 != 0 })
 	if err != nil {
 		fail("harness", err.Error(), nil)
